@@ -119,7 +119,7 @@ func (c *converter) FuncStart(name string, params []string, returnTypes []parser
 	c.addLine(fmt.Sprintf("%s() {", name))
 
 	for i, param := range params {
-		s := c.varAssignmentString(param, fmt.Sprintf("$%d", i+1), false)
+		s := c.varAssignmentString(param, fmt.Sprintf("${%d}", i+1), false) // Braces are required from the 10th parameter on ($10 is ${1}0).
 		c.addLine(fmt.Sprintf("local %s", s))
 	}
 	return nil
